@@ -135,7 +135,8 @@ def run(ctx):
             delta = rng.choice(deltas)
             with open(os.path.join(tmp, "inc.ips"), "wb") as fh:
                 fh.write(f)
-            pre = rng.choice(["*=0x008000\n.db 1,2\n", "*=0x018000\nlda #1\n@=0x7e0000\nq:\nnop\n", ".db 9\n"])
+            pre = rng.choice(["*=0x008000\n.db 1,2\n", "*=0x018000\nlda #1\n@=0x7e0000\nq:\nnop\n", ".db 9\n",
+                              "*=0x008000\nlda #0x12\n@=0x008100\nhere:\njmp.w here\n", "*=0x028000\n.db 5\n@=0x038123\n.dw 0x1234\n"])
             post = rng.choice([".db 3\nl:\n.dw l\n", "nop\nl:\n", "l:\n.dl l\n*=0x028000\n.db 7\n"])
             dtxt = str(delta) if delta >= 0 else f"-{-delta}"
             with_ = impl.assemble(pre + f".include_ips 'inc.ips', {dtxt}\n" + post, cwd=tmp)
